@@ -104,6 +104,39 @@ CLAIMS = {
        "permutes by comp-guarded swaps only. Does not decide agreement with std::bitset, the streams or sortedness.",
   note="Trusted: clang AST/CFG of tu/bits.cpp per N; set(pos) exempt by documented precondition pos < N.",
   design_ref="DESIGN.md §3 C18, §2 B1/B3/B4/R/T"),
+ "C15": dict(
+  technique="static analysis: symbolic (polynomial) comparison of copy counts, allocation sizes and write offsets; dominating-bound facts on view subscripts; overflow-safe assertion shape",
+  text="Decides structural clauses of C15 on basic_string/basic_string_view (quick: char; thorough also char16_t): every "
+       "memcpy count is <= the source extent (a view exposes sizeof(Char)*size() bytes, no terminator) and destination "
+       "range and every element write lie inside the allocation with sizeof(Char)>=1 symbolic; a terminator is written at "
+       "the new length whenever a buffer is installed; every constructor leaves a non-null buffer; view search subscripts "
+       "are dominated by index<length; sub_string's assertion cannot wrap; starts_with/ends_with slice only when the "
+       "argument fits; compare() is length-first; swap complete; empty() polarity. The null buffer of default-constructed "
+       "and detached strings is a recorded known finding. Does not decide equality with a reference string.",
+  note="Trusted: clang AST/CFG of tu/string.cpp; lengths are symbols, sufficient (not complete) polynomial non-negativity test; "
+       "caller-supplied (pointer,length) pairs are trusted by contract.",
+  design_ref="DESIGN.md §3 C15, §2 B2/B5"),
+ "C20": dict(
+  technique="static analysis: NUL-terminated-cursor typestate, dominating index<size facts, API-only (who-may-call) rule, signed-accumulator rule, recursion/loop-progress",
+  text="Decides structural clauses of C20: in printf_format every cursor advance and look-ahead is justified by characters "
+       "verified non-NUL on every path (typestate 0/1/2 refined by FRG_ASSERT(*s) and character comparisons); every "
+       "subscript of a format view in the {}-parser is dominated by index<size(); parse_arguments touches the command line "
+       "only through find_first/sub_string/size/comparison; sub_string's assertion cannot wrap and view searches are "
+       "bounded; digit accumulators (to_number, printf width/precision, {} width) are unsigned, overflow-checked or bounded; "
+       "no parser recurses unconditionally; loops advance. Does not decide absence of all undefined behaviour nor the bounds "
+       "of the caller's positional-argument array.",
+  note="Trusted: clang AST/CFG of tu/format.cpp and tu/string.cpp; assertion failure arms are non-returning (panic hook / trap).",
+  design_ref="DESIGN.md §3 C20, §2 B5/B6/B7/R"),
+ "C19": dict(
+  technique="static analysis: table extraction (length modifier -> popped type per conversion) with sibling agreement, per-path pop counting, error-propagation shape, guarded buffer writes",
+  text="Decides only the structural rim of C19: in do_printf_ints every length modifier is handled in every conversion, pops "
+       "an integer of the modifier's width with the conversion's signedness, and the conversions agree; every conversion arm "
+       "pops exactly one argument per path; every printf agent result is tested and propagated before the cursor moves; the "
+       "{}-spec parser accepts exactly b c o d i x X and the three echo sites slice from the recorded spec start; logger "
+       "buffer writes are dominated by _off<Limit and a flush terminates, emits, resets. The heart of C19 — byte-for-byte "
+       "agreement with ISO C for every flag/width/precision/value — is NOT decidable by this family and is not claimed.",
+  note="Trusted: clang AST/CFG of tu/format.cpp (LP64 widths). Observation recorded in DESIGN.md §4: print_digits ignores the sign in the width computation.",
+  design_ref="DESIGN.md §3 C19, §2 T"),
 }
 
 NOT_YET = "check not built yet in this revision (see DESIGN.md §7 order of work); not claimed until it exists"
